@@ -64,13 +64,14 @@ Definition chunks (n : nat) (l : bytes) : list bytes := chunks_f (length l) n l.
 Definition stream_wire (ty id : N) (data : bytes) : bytes :=
   concat (map (write_record ty id) (chunks (N.to_nat MAXW) data)) ++ write_record ty id [].
 
-(* writePairs: the value is cut when 8+len(k)+len(v) > 65500 (v[:65500-8-len(k)], which
-   panics for len(k) > 65492); pairs are grouped into records by the nn+m > maxWrite rule. *)
+(* writePairs: the value is cut when the ENCODED pair exceeds 65500 bytes: v[:vl] with
+   vl = 65500-8-len(k), clamped at 0 when the name leaves no room (Go-checked slice);
+   pairs are grouped into records by the nn+m > maxWrite rule. *)
 Definition trunc_pair (kv : bytes * bytes) : res (bytes * bytes) :=
   let '(k, v) := kv in
-  if MAXW <? 8 + len k + len v then
-    if MAXW <? 8 + len k then Panic
-    else Ok (k, firstn (N.to_nat (MAXW - 8 - len k)) v)
+  if MAXW <? len (encode_pair kv) then
+    let vl := if MAXW <? 8 + len k then 0 else MAXW - 8 - len k in      (* if vl < 0 { vl = 0 } *)
+    do v' <- slice v 0 (N.to_nat vl); Ok (k, v')                       (* v = v[:vl] *)
   else Ok kv.
 
 Fixpoint trunc_all (ps : list (bytes * bytes)) : res (list (bytes * bytes)) :=
@@ -79,9 +80,13 @@ Fixpoint trunc_all (ps : list (bytes * bytes)) : res (list (bytes * bytes)) :=
   | p :: r => do p' <- trunc_pair p; do r' <- trunc_all r; Ok (p' :: r')
   end.
 
-Definition flush (cur : list bytes) : list bytes :=
-  match cur with [] => [] | _ => [concat (rev cur)] end.
-(* cur is the bufio buffer as a reversed list of encoded pairs, nn the code's counter *)
+(* bufio.Writer(65500).Flush behind the streamWriter: what has been written since the last flush
+   leaves in records of 65500 bytes and a remainder.  As long as every encoded pair is at most
+   65500 bytes (always, unless a NAME is longer than 65492) the nn rule flushes before the buffer
+   overflows and this is a single record; a longer pair overflows the buffer, which bufio empties
+   in full 65500-byte writes. *)
+Definition flush (cur : list bytes) : list bytes := chunks (N.to_nat MAXW) (concat (rev cur)).
+(* cur is what was written since the last flush as a reversed list of encoded pairs, nn the code's counter *)
 Fixpoint group (es : list bytes) (nn : N) (cur : list bytes) : list bytes :=
   match es with
   | [] => flush cur
@@ -319,11 +324,18 @@ Fixpoint take_until (c : N) (s : bytes) : bytes :=
 Definition hdr_values (name : bytes) (fields : list (bytes * bytes)) : list bytes :=
   map snd (filter (fun f => beq (canon_mime (fst f)) name) fields).
 
-(* None = the Status value is not a number: Request fails, the handler answers 502 *)
+(* None = the Status value is not a number, or a number outside 100..999: Request fails, the
+   handler answers 502 *)
 Definition resp_status (fields : list (bytes * bytes)) : option N :=
   match hdr_values (bs "Status") fields with
   | [] => Some 200
-  | v :: _ => match v with [] => Some 200 | _ => parse_dec (take_until 32 v) end
+  | v :: _ => match v with
+              | [] => Some 200
+              | _ => match parse_dec (take_until 32 v) with
+                     | Some c => if (c <? 100) || (999 <? c) then None else Some c
+                     | None => None
+                     end
+              end
   end.
 
 (* a conforming head as rendered by the harness, and the matching parser *)
@@ -411,6 +423,8 @@ Definition rule_matches (r : rule) (p : bytes) : bool :=
 Definition allowed (r : rule) (p : bytes) : bool :=
   forallb (fun ig => negb (path_matches cs (clean p) (path_join (r_path r) ig))) (r_except r).
 
+(* OPanic is not produced by [serve] any more (C13_dispatch_no_panic); it is kept as the model-side
+   counterpart of an observed panic *)
 Inductive outcome := ONext | ODispatch (i : nat) (fpath : bytes) | O500 | OPanic.
 
 Fixpoint serve (rules : list rule) (i : nat) (p : bytes) : outcome :=
@@ -421,12 +435,10 @@ Fixpoint serve (rules : list rule) (i : nat) (p : bytes) : outcome :=
     else if negb (allowed r p) then serve rest (S i) p
     else
       let decide (f : bytes) : outcome :=
+        (* !h.exists(fpath) || strings.HasSuffix(fpath, "/") || HasSuffix(lower fpath, lower ext) *)
         if negb (stat_ok f) then ODispatch i f
-        else match last_byte f with
-             | None => OPanic                                   (* fpath[len(fpath)-1] on "" *)
-             | Some c => if (c =? SLASH) || has_suffix (to_lower f) (to_lower (r_ext r))
-                         then ODispatch i f else serve rest (S i) p
-             end in
+        else if ends_with_slash f || has_suffix (to_lower f) (to_lower (r_ext r))
+             then ODispatch i f else serve rest (S i) p in
       let f0 := trim_right p in
       match index_file f0 (r_index r) with
       | Some idx => if can_split cs r idx then decide idx else O500
@@ -697,7 +709,7 @@ Definition judge_wire (ps0 : list (list seg * list seg)) (hasbody : bool) (body0
     | Panic => panicked
     end in
   let spec :=
-    if panicked then negb (forallb fits ps)
+    if panicked then false            (* writing a request never panics, whatever the sizes *)
     else match rcv with
          | Some (role, flags, got, gotbody) =>
              (role =? 1) && (flags =? 0) && pairs_ok ps got &&
